@@ -56,6 +56,25 @@ class Run:
         self.mobile0 = np.array(mobile if start is None else start, float)
         self.edges = edges
         self.info = bonds_info(np.array(mobile, float), edges)
+        if cfg.get('pre'):
+            # call history on ONE bond table object: a first search uses it, it is then edited in place (all
+            # lengths doubled, as when switching units) and the explored search runs on the doubled system
+            pre = McScript(Ctx([]), 4, [])
+            acc0 = be.accept_metropolis
+
+            def pre_acc(e0, e1, *a, **k):
+                pre.pending = (e0, e1)
+                return acc0(e0, e1, *a, **k)
+            with owned_random(pre), patched(be, 'accept_metropolis', pre_acc), quiet_stdout():
+                try:
+                    be.minimize_molecules(self.fixed, self.mobile0, self.mobile0.mean(axis=0), 0.5, 2, [],
+                                          self.info, 0.3, (2,))
+                except Horizon:
+                    pass
+            for k in list(self.info):
+                self.info[k] = [(j, ln * 2.0) for j, ln in self.info[k]]
+            self.fixed = self.fixed * 2.0
+            self.mobile0 = self.mobile0 * 2.0
         self.restr = restraint_sets(len(fixed), len(mobile))[cfg['restr']]
         self.kinds = tuple(cfg['kinds'])
         self.n = cfg['n']
@@ -265,6 +284,12 @@ class C09(Check):
                                 continue
                             u.append({'pair': pair, 'restr': restr, 'kinds': kinds, 'n': n,
                                       'H': self.bounds['horizon'], 'D': self.bounds['deviation_bound_small']})
+        # a bond table object reused (and edited in place) between two searches
+        for pair in ('p2x3', 'p4x3', 'p5x4star'):
+            for kinds in ([2], [0, 1, 2]):
+                u.append({'pair': pair, 'restr': 'none', 'kinds': kinds, 'n': 2, 'pre': 1,
+                          'H': self.bounds['horizon'], 'D': 2})
+        self.bounds['bond_table_reused'] = 'first search, table lengths doubled in place, explored second search (3 pairs)'
         # large budgets along low-deviation paths
         for pair in ('p3x2', 'p4x3'):
             kinds = [0, 1, 2]
@@ -275,7 +300,7 @@ class C09(Check):
         out = []
         for c in u:
             if c['D'] is not None and c['D'] >= 3 and c['n'] <= 3 and not c['pair'].startswith('p1x1'):
-                cfg = {k: c[k] for k in ('pair', 'restr', 'kinds', 'n')}
+                cfg = {k: c[k] for k in ('pair', 'restr', 'kinds', 'n', 'pre') if k in c}
                 for r in roots(lambda ctx: Run(cfg, ctx, c['H']), c['D'], 3):
                     out.append(dict(c, root=r))
             else:
@@ -288,7 +313,7 @@ class C09(Check):
     def check_case(self, case, R, seed):
         H, D = case['H'], case['D']
         dev_at = set(case['dev_at']) if case.get('dev_at') else None
-        cfg = {k: case[k] for k in ('pair', 'restr', 'kinds', 'n')}
+        cfg = {k: case[k] for k in ('pair', 'restr', 'kinds', 'n', 'pre') if k in case}
         seen_states = set()
 
         def one(ctx):
@@ -310,7 +335,7 @@ class C09(Check):
             R.add('max_choice_points', len(ctx.trace))
             outcome = ('cut' if run.cut else 'done') + f"/acc{min(st['accepts'], 3)}/min{min(st['new_min'], 2)}"
             R.case(desc, nontrivial=st['iters'] > 0, outcome=outcome,
-                   cls=f"{cfg['pair']}/{cfg['restr']}/kinds{''.join(map(str, cfg['kinds']))}/n{cfg['n']}")
+                   cls=f"{cfg['pair']}/{cfg['restr']}/kinds{''.join(map(str, cfg['kinds']))}/n{cfg['n']}" + ('/table-reused' if cfg.get('pre') else ''))
             for sig, det in V:
                 R.violation(sig, desc, det)
             # non-initial state differential: after a new minimum the loop state equals the
